@@ -559,13 +559,20 @@ class Folder:
             return Opaque("callable", n.id)
         if f is not None and not self.symbolic and n.id in f.module.funcs:
             return _FuncVal(f.module.funcs[n.id].node)
-        if f is not None and n.id in f.module.assigns and not self.symbolic:
+        if f is not None and n.id in f.module.assigns and (not self.symbolic or n.id not in f.module.classes and n.id not in f.module.funcs and n.id not in f.module.imports):
             # a module-level constant (lookup table, literal): folded once, on its own
             key = (f.module.name, n.id)
             if key not in self._modconst:
                 self._modconst[key] = self.ev(f.module.assigns[n.id], {})
             return self._modconst[key]
         raise Refuse(f"unbound name {n.id}")
+
+    def e_Lambda(self, n, env):
+        """A lambda is a nested function whose body is one return: folded at the call, in the environment it was written in."""
+        fn = ast.FunctionDef(name="<lambda>", args=n.args, body=[ast.Return(value=n.body)], decorator_list=[], returns=None, type_comment=None)
+        ast.copy_location(fn, n)
+        ast.fix_missing_locations(fn)
+        return _Closure(fn, env)
 
     def e_Tuple(self, n, env):
         return tuple(self._elts(n.elts, env))
@@ -1180,6 +1187,13 @@ class Folder:
                     args = [self.ev(a, env) for a in n.args]
                     kw = self._kwargs(n, env)
                     return self.call(fv.fnode, list(fv.args) + args, {**fv.kw, **kw})
+        if not isinstance(f, (ast.Name, ast.Attribute)):
+            try:
+                fv_ = self.ev(f, env)
+            except Refuse:
+                fv_ = None
+            if isinstance(fv_, _Closure):   # an entry of a table of lambdas / nested functions
+                return self.call(fv_.fnode, self._call_args(n, env), self._kwargs(n, env), base_env=fv_.env)
         if isinstance(f, ast.Name) and isinstance(env.get(f.id), _Closure):
             cl = env[f.id]
             args = [self.ev(a, env) for a in n.args]
